@@ -113,3 +113,67 @@ package mobius
 // field, or the data field (rename) of the same entry -- never by an earlier entry of the batch.
 //@ func HandleUpdateUser(cc *hotline.ClientConn, t *hotline.Transaction) (res []hotline.Transaction)
 //@   before call (hotline.AccountManager).Get assert arg1 == userLogin || callres("hotline.GetField#2") != nil
+
+// ---------------------------------------------------------------------------------
+// C07: every path a handler hands to the file store lies inside the requester's file root (ROOT =
+// cc.FileRoot()); the file root registered with a transfer is the requester's.
+
+//@ func HandleNewFolder(cc *hotline.ClientConn, t *hotline.Transaction) (res []hotline.Transaction)
+//@   loop 1 invariant subPath == "" || rooted(subPath)
+//@   before call (hotline.FileStore).Stat assert inroot(arg1)
+//@   before call (hotline.FileStore).Mkdir assert inroot(arg1)
+
+//@ func HandleSetFileInfo(cc *hotline.ClientConn, t *hotline.Transaction) (res []hotline.Transaction)
+//@   before call (hotline.FileStore).Stat assert inroot(arg1)
+//@   before call os.Rename assert inroot(arg0) && inroot(arg1)
+//@   before call (*hotline.fileWrapper).Move assert fullFilePath != ROOT ==> seg(hlFile.Name) && inroot(arg1)
+
+//@ func HandleDeleteFile(cc *hotline.ClientConn, t *hotline.Transaction) (res []hotline.Transaction)
+//@   before call hotline.NewFileWrapper assert inroot(arg1)
+
+//@ func HandleMoveFile(cc *hotline.ClientConn, t *hotline.Transaction) (res []hotline.Transaction)
+//@   before call hotline.NewFileWrapper assert inroot(arg1)
+
+//@ func HandleMakeAlias(cc *hotline.ClientConn, t *hotline.Transaction) (res []hotline.Transaction)
+//@   before call (hotline.FileStore).Symlink assert inroot(arg1) && inroot(arg2)
+
+//@ func HandleGetFileInfo(cc *hotline.ClientConn, t *hotline.Transaction) (res []hotline.Transaction)
+//@   before call hotline.NewFileWrapper assert inroot(arg1)
+
+//@ func HandleGetFileNameList(cc *hotline.ClientConn, t *hotline.Transaction) (res []hotline.Transaction)
+//@   before call hotline.GetFileNameList assert inroot(arg0)
+
+//@ func HandleDownloadFile(cc *hotline.ClientConn, t *hotline.Transaction) (res []hotline.Transaction)
+//@   before call hotline.NewFileWrapper assert inroot(arg1)
+//@   before call (*hotline.ClientConn).NewFileTransfer assert arg2 == ROOT
+
+//@ func HandleUploadFile(cc *hotline.ClientConn, t *hotline.Transaction) (res []hotline.Transaction)
+//@   before call (hotline.FileStore).Stat assert inroot(arg1)
+//@   before call (*hotline.ClientConn).NewFileTransfer assert arg2 == ROOT
+
+//@ func HandleDownloadFolder(cc *hotline.ClientConn, t *hotline.Transaction) (res []hotline.Transaction)
+//@   before call hotline.CalcTotalSize assert inroot(arg0)
+//@   before call hotline.CalcItemCount assert inroot(arg0)
+//@   before call (*hotline.ClientConn).NewFileTransfer assert arg2 == ROOT
+
+//@ func HandleUploadFolder(cc *hotline.ClientConn, t *hotline.Transaction) (res []hotline.Transaction)
+//@   before call (*hotline.ClientConn).NewFileTransfer assert arg2 == ROOT
+
+// C07: account files are written, renamed and removed inside the accounts directory only.
+
+//@ func (am *YAMLAccountManager) Create(account hotline.Account) (err error)
+//@   property C07
+//@   requires am.accountDir == ROOT
+//@   before call os.Stat assert inroot(arg0)
+//@   before call mobius.writeFileAtomic assert inroot(arg0)
+//@   before call os.OpenFile assert inroot(arg0)
+//@ func (am *YAMLAccountManager) Update(account hotline.Account, newLogin string) (err error)
+//@   property C07
+//@   requires am.accountDir == ROOT
+//@   before call os.Rename assert inroot(arg0) && inroot(arg1)
+//@   before call mobius.writeFileAtomic assert inroot(arg0)
+//@   before call os.WriteFile assert inroot(arg0)
+//@ func (am *YAMLAccountManager) Delete(login string) (err error)
+//@   property C07
+//@   requires am.accountDir == ROOT
+//@   before call os.Remove assert inroot(arg0)
